@@ -56,6 +56,10 @@ def _run_dual(ctx, spec, rng):
     from toqito.channel_ops import dual_channel
 
     din, dout = int(rng.integers(1, 5)), int(rng.integers(1, 5))
+    if spec[1] % 17 == 9:
+        # Choi matrices larger than 64 x 64 (more than 4096 entries) with unequal input / output dimensions: beyond any size threshold at which the
+        # library or a helper it uses (swap / permute_systems) might switch to another algorithm
+        din, dout = [(5, 13), (8, 9), (13, 5), (2, 33), (7, 11), (33, 2), (9, 8), (3, 23)][(spec[1] // 17) % 8]
     r = int(rng.integers(1, 5))
     cls = ["cp", "gen", "hp"][int(rng.integers(0, 3))]
     cplx = bool(rng.integers(0, 2))
